@@ -68,6 +68,8 @@ type Contract struct {
 	NoFrame     bool
 	Cases       []*Clause     // case split: the function is verified once under each case assumption
 	SiteAsserts []*SiteAssert // assertions at the statements whose source line contains a given text
+	Preserves   []string      // with noframe: heap maps (T.f, T.*) the function never writes (checked syntactically)
+	CallAsserts []*SiteAssert // assert_call <callee>: assertions about the arguments at every call of a callee
 	Witnesses   []*Clause     // candidate witnesses (over locals) for exists() in postconditions
 	Volatile    []string      // field suffixes (e.g. ".state.v") that other goroutines may write at any time
 	PostsOnly   bool          // only the postconditions (and loop invariants) are claimed, not the safety obligations
@@ -134,7 +136,7 @@ func newContractDB() *ContractDB {
 	return &ContractDB{Funcs: map[string]*Contract{}, Specs: map[string]*SpecFunc{}, Lemmas: map[string]*Lemma{}, Consts: map[string]string{}, Ghosts: map[string]string{}}
 }
 
-var keywordRe = regexp.MustCompile(`^(package|axiom|func|requires|ensures|modifies|mode|loop|invariant|decreases|hint|unfold|use|induct|may_panic|trusted|abstracts|inline|intonly|partial|posts_only|assert_at|wraps_signed|volatile|witness|cases|property|spec|lemma|struct|global|ghost|noframe|const)\b`)
+var keywordRe = regexp.MustCompile(`^(package|axiom|func|requires|ensures|modifies|mode|loop|invariant|decreases|hint|unfold|use|induct|may_panic|trusted|abstracts|inline|intonly|partial|posts_only|assert_at|assert_call|preserves|wraps_signed|volatile|witness|cases|property|spec|lemma|struct|global|ghost|noframe|const)\b`)
 
 // stripComment removes a trailing `// ...` that is outside string literals
 func stripComment(s string) string {
@@ -530,6 +532,7 @@ func (db *ContractDB) LoadFile(path, pkgPath string, trusted bool) error {
 			lastSpec.Axioms = append(lastSpec.Axioms, cl)
 		case "struct":
 			db.Structs = append(db.Structs, &StructCheck{Text: rest, Src: st.src, Pkg: curPkg})
+			cur, curLemma = nil, nil // a following `property` clause belongs to this check
 		case "global":
 			// global name: invariant-expr over v
 			i := strings.Index(rest, ":")
@@ -680,6 +683,23 @@ func (db *ContractDB) LoadFile(path, pkgPath string, trusted bool) error {
 					return err
 				}
 				cur.SiteAsserts = append(cur.SiteAsserts, &SiteAssert{Text: text, Cl: cl})
+			case "preserves":
+				for _, f := range strings.Split(rest, ",") {
+					if f = strings.TrimSpace(f); f != "" {
+						cur.Preserves = append(cur.Preserves, f)
+					}
+				}
+			case "assert_call":
+				// assert_call T.m: expr over recv, arg0, arg1, ... and the caller's locals
+				parts := strings.SplitN(rest, ":", 2)
+				if len(parts) != 2 {
+					return fmt.Errorf("%s: assert_call needs `<callee>: <expr>`", st.src)
+				}
+				cl, err := parseClause(strings.TrimSpace(parts[1]), st.src)
+				if err != nil {
+					return err
+				}
+				cur.CallAsserts = append(cur.CallAsserts, &SiteAssert{Text: strings.TrimSpace(parts[0]), Cl: cl})
 			case "partial":
 				cur.Partial = true
 			case "posts_only":
